@@ -56,8 +56,13 @@ CLAIM = dict(
           "not pinned to two chips, reservations fit when there is no vertex, oracle orders list every vertex. "
           "VALIDATED ONLY (differential, every run): that the stage models and the bridge functions are what the Python "
           "code does (stage harnesses C02-C05, C10, C04 + the model-pipeline stream here, sequential placer only for the "
-          "whole chain); the hardware rules written in `visit` are trusted. NOT PROVED: that the model pipeline returns "
-          "(the theorem is conditional on every stage returning ok; failure clauses are those of the stage properties); "
+          "whole chain); the hardware rules written in `visit` are trusted. FAILURES: afterPlace_only_failure proves "
+          "that after a feasible placement the model pipeline fails only with the allocator's error, "
+          "MachineHasDisconnectedSubregion (and only on a machine that is not strongly connected), "
+          "MinimisationFailedError, or an impossible oracle / a net naming an unplaced vertex; routing_tree_to_tables never "
+          "raises MultisourceRouteError in the domain (tables_total_of_valid). NOT PROVED: that the model pipeline returns "
+          "(delivery is conditional on every stage returning ok; the placers' and the allocator's own failure clauses are "
+          "those of C02 / C05 and are not re-composed here); "
           "nothing about rig_c_sa (opaque C kernel: judged by the oracle only) or about place_and_route_wrapper's "
           "derivation of machine and constraints from SystemInfo (that is C14's probe_to_machine_exact; here both wrappers "
           "are exercised by the oracle stream only). A packet returning to a chip already on its path counts as "
@@ -69,7 +74,8 @@ THEOREMS = ["deliveredB_iff", "delivered_no_flag", "deliver_of_tree", "deliver_o
             "allocation_bridge",
             # capstone (Props/C01Pipe.lean)
             "afterPlace_delivers", "afterPlace_placement", "runPlacer_feasible", "model_pipeline_delivers",
-            "model_pipeline_no_flag", "expected_cores", "expected_exits", "ex_runs", "ex_domain", "ex_placerDomain"]
+            "model_pipeline_no_flag", "expected_cores", "expected_exits", "ex_runs", "ex_domain", "ex_placerDomain",
+            "tables_total_of_valid", "afterPlace_only_failure"]
 
 RULE = ("pipelines on machines 1x1..8x8 (quick) / ..24x24 (thorough), torus / mesh / partly wrapped, dead chips, links dead "
         "in one or both directions, per-chip core-count exceptions, busy cores (monitor + random) as SystemInfo core "
